@@ -238,23 +238,24 @@ type SignerOpts struct {
 
 // SignerRig is a full real signing stack.
 type SignerRig struct {
-	Ctx       context.Context
-	cancel    context.CancelFunc
-	Dir       string
-	ownDir    bool
-	opts      SignerOpts
-	WStore    e2wtypes.Store
-	Wallets   map[string]e2wtypes.Wallet
-	Fetcher   fetcher.Service
-	RealFetch *memfetcher.Service
-	Checker   checker.Service
-	Unlocker  unlocker.Service
-	Locker    locker.Service
-	Rules     *standardrules.Service
-	RulesI    rules.Service
-	Ruler     ruler.Service
-	Signer    signer.Service
-	nacct     int
+	Ctx         context.Context
+	cancel      context.CancelFunc
+	Dir         string
+	ownDir      bool
+	opts        SignerOpts
+	WStore      e2wtypes.Store
+	Wallets     map[string]e2wtypes.Wallet
+	Fetcher     fetcher.Service
+	RealFetch   *memfetcher.Service
+	Checker     checker.Service
+	Unlocker    unlocker.Service
+	Locker      locker.Service
+	Rules       *standardrules.Service
+	RulesI      rules.Service
+	Ruler       ruler.Service
+	Signer      signer.Service
+	nacct       int
+	rulesCancel context.CancelFunc
 }
 
 // DefaultClient is the client name with All permissions on every rig wallet by default.
@@ -331,8 +332,11 @@ func NewSignerRig(o SignerOpts) (*SignerRig, error) {
 
 func (r *SignerRig) openRules() error {
 	var err error
-	// The rules service gets its own context: cancelling it closes the store (as in the daemon).
-	r.Rules, err = standardrules.New(context.Background(), standardrules.WithStoragePath(r.Dir), standardrules.WithAdminIPs(r.opts.AdminIPs))
+	// The rules service gets its own context: cancelling it closes the store (as in the daemon). It is cancelled
+	// after every explicit close so that the service's watcher goroutine does not pin the closed database in memory.
+	var rctx context.Context
+	rctx, r.rulesCancel = context.WithCancel(context.Background())
+	r.Rules, err = standardrules.New(rctx, standardrules.WithStoragePath(r.Dir), standardrules.WithAdminIPs(r.opts.AdminIPs))
 	if err != nil {
 		return err
 	}
@@ -366,14 +370,20 @@ func (r *SignerRig) openRules() error {
 // Restart closes the slashing-protection store and reopens it on the same directory,
 // rebuilding locker, ruler and signer (the account cache survives, as its content is static).
 func (r *SignerRig) Restart() error {
-	if err := r.Rules.Close(r.Ctx); err != nil {
+	if err := r.StopStore(); err != nil {
 		return fmt.Errorf("close: %w", err)
 	}
 	return r.openRules()
 }
 
 // StopStore closes the slashing-protection store (e.g. to let the CLI use the directory).
-func (r *SignerRig) StopStore() error { return r.Rules.Close(r.Ctx) }
+func (r *SignerRig) StopStore() error {
+	err := r.Rules.Close(r.Ctx)
+	if r.rulesCancel != nil {
+		r.rulesCancel()
+	}
+	return err
+}
 
 // StartStore reopens the store after StopStore and rebuilds the services depending on it.
 func (r *SignerRig) StartStore() error { return r.openRules() }
@@ -413,7 +423,7 @@ func (r *SignerRig) AddAccount(wallet string, name string, pass string, unlocked
 
 // Close tears the rig down.
 func (r *SignerRig) Close() {
-	_ = r.Rules.Close(r.Ctx)
+	_ = r.StopStore()
 	r.cancel()
 	if r.ownDir {
 		_ = os.RemoveAll(r.Dir)
